@@ -791,7 +791,9 @@ func c18Leader(p *Program, r *Report) {
 	r.Check(okState && allowed, "leader depends only on member address and status", fn.Pos(), "fields read: "+strings.Join(fl, ", ")+"; no package-level state")
 	// what is collected from the map iteration is sorted (or min-reduced) before it is indexed / returned
 	g := p.ig(fn)
-	sorted := nodesWhere(g, func(in ssa.Instruction) bool { return strings.HasPrefix(calleeQual(callOf(in)), "sort.") || strings.HasPrefix(calleeQual(callOf(in)), "slices.Sort") })
+	sorted := nodesWhere(g, func(in ssa.Instruction) bool {
+		return strings.HasPrefix(calleeQual(callOf(in)), "sort.") || strings.HasPrefix(calleeQual(callOf(in)), "slices.Sort")
+	})
 	hasRange := false
 	okSort := true
 	for i, in := range g.Nodes {
